@@ -21,11 +21,14 @@ pub fn expected(t: &T, targets: &HashSet<D32>, revealing: bool, ph: Kind, hidden
     let hide = if revealing { !in_t } else { in_t };
     if hide {
         hidden_paths.push(path.clone());
-        let kind = if t.kind.is_obscured() {
-            // already a placeholder: only has to stay *some* placeholder; mark with its own kind
-            t.kind
-        } else {
-            ph
+        // Elide: nothing but the digest, also where a compressed / encrypted placeholder stood before
+        // (its payload is content). Encrypt: only ciphertext (an elided placeholder may stay elided, see
+        // diff_relaxed). Compress: a present element becomes Compressed; a placeholder may stay as it is.
+        let kind = match (ph, t.kind) {
+            (Kind::Elided, _) => Kind::Elided,
+            (Kind::Encrypted, _) => Kind::Encrypted,
+            (_, k) if k.is_obscured() => k,
+            _ => ph,
         };
         return T { kind, digest: t.digest, leaf: None, kv: None, children: vec![] };
     }
@@ -45,7 +48,10 @@ fn diff_relaxed(exp: &T, got: &T, orig: &T, path: &mut Path) -> Option<String> {
         return Some(format!("{}: digest differs", path_str(path)));
     }
     if exp.kind != got.kind {
-        let relaxed = exp.kind.is_obscured() && got.kind.is_obscured() && orig.kind.is_obscured();
+        // the only tolerated deviations: an element that was already elided may stay elided under the
+        // Encrypt action (no content either way); under Compress a placeholder may stay what it was
+        let relaxed = (exp.kind == Kind::Encrypted && got.kind == Kind::Elided && orig.kind == Kind::Elided)
+            || (exp.kind.is_obscured() && exp.kind != Kind::Elided && exp.kind != Kind::Encrypted && got.kind.is_obscured() && orig.kind.is_obscured());
         if !relaxed {
             return Some(format!("{}: kind expected {:?} got {:?}", path_str(path), exp.kind, got.kind));
         }
@@ -80,20 +86,38 @@ fn markers(t: &T, hidden: &[Path]) -> HashMap<Vec<u8>, (u32, u32)> {
             let mut i = 0;
             while i + 2 < l.len() {
                 if l[i] == b'M' && l[i + 1] == b'K' && l[i + 2].is_ascii_digit() {
+                    // full marker shape only: MK<digits>.<digits>.<8 hex digits>
                     let mut j = i + 2;
-                    while j < l.len() && (l[j].is_ascii_alphanumeric() || l[j] == b'.') {
+                    let digits = |j: &mut usize| {
+                        let s = *j;
+                        while *j < l.len() && l[*j].is_ascii_digit() {
+                            *j += 1;
+                        }
+                        *j > s
+                    };
+                    let mut ok = digits(&mut j);
+                    ok = ok && j < l.len() && l[j] == b'.';
+                    j += 1;
+                    ok = ok && digits(&mut j);
+                    ok = ok && j < l.len() && l[j] == b'.';
+                    j += 1;
+                    let hs = j;
+                    while j < l.len() && j - hs < 8 && l[j].is_ascii_hexdigit() {
                         j += 1;
                     }
-                    let e = out.entry(l[i..j].to_vec()).or_insert((0, 0));
-                    if is_hidden {
-                        e.0 += 1
-                    } else {
-                        e.1 += 1
+                    ok = ok && j - hs == 8;
+                    if ok {
+                        let e = out.entry(l[i..j].to_vec()).or_insert((0, 0));
+                        if is_hidden {
+                            e.0 += 1
+                        } else {
+                            e.1 += 1
+                        }
+                        i = j;
+                        continue;
                     }
-                    i = j;
-                } else {
-                    i += 1;
                 }
+                i += 1;
             }
         }
     }
